@@ -26,7 +26,7 @@ var primitives = []string{
 	"cond-x", "cond-y",
 	"xr-status",
 	"req-name", "req-name-absent",
-	"req-labels0", "req-labels1", "req-labels2",
+	"req-labels0", "req-labels1", "req-labels2", "req-labels-multi",
 	"req-then", "req-drop", "req-chain", "req-flip",
 	"input",
 	"cred", "cred-absent",
@@ -202,6 +202,12 @@ func behave(fname string, in *fnv1.RunFunctionRequest, maxIter int) *fnv1.RunFun
 	case "req-labels0", "req-labels1", "req-labels2":
 		set := map[string]string{"req-labels0": "zero", "req-labels1": "one", "req-labels2": "two"}[p]
 		rsp.Requirements = reqs("byl", byLabels(set), "also", byName("cm-present"))
+		ctx().Fields["seen-"+fname] = structpb.NewNumberValue(float64(items(req, "byl")))
+	case "req-labels-multi":
+		// A selector with two labels: only resources carrying both match.
+		sel := byLabels("two")
+		sel.GetMatchLabels().Labels["other"] = "x"
+		rsp.Requirements = reqs("byl", sel)
 		ctx().Fields["seen-"+fname] = structpb.NewNumberValue(float64(items(req, "byl")))
 	case "req-then":
 		// Require x; once x was supplied require y instead (and no longer x).
